@@ -68,7 +68,7 @@ REQUIRED = ["%s_%s" % (s, n) for s in SHAPES for n in PER_SHAPE] + [
     "Box2_generic_makeEmpty", "Box2_generic_makeInfinite", "Box2_generic_default", "Box3_generic_center", "Box2_generic_center", "Box2_generic_size",
     "Box2_generic_majorAxis",
     # audit W6: integer center() with truncating division (unbounded Int)
-    "Interval_center_int_mem", "Box2_center_int_mem", "Box3_center_int_mem", "Box4_center_int_mem",
+    "Interval_center_int_mem", "Box2_center_int_mem", "Box3_center_int_mem", "Box4_center_int_mem", "center16_mem", "center16_outside",
     "Box2_clip_mem", "Box3_clip_mem", "Box4_clip_mem", "Box2_clip_fixed", "Box3_clip_fixed", "Box4_clip_fixed",
     "Box2_clip_nearest", "Box3_clip_nearest", "Box4_clip_nearest", "Box3_clip_nearest_euclid",
     "Box2_closestPointInBox", "Box3_closestPointInBox", "Box4_closestPointInBox",
@@ -80,6 +80,8 @@ REQUIRED = ["%s_%s" % (s, n) for s in SHAPES for n in PER_SHAPE] + [
     # audit W1 / W3: range-relative projective theorems, containment on the projective path, necessity of w > 0
     "projective_spec", "transform_not_inverted", "transform_contains_of_pos_w", "transformOut_contains_of_pos_w",
     "wOf_pos_of_corners", "proj_axis_bounds", "wProj_range", "wPersp_range", "wPersp_pos",
+    # audit r2 N1 / N7: w != 0 at the corners is a hypothesis of the tightness theorems; containment also for w < 0
+    "wProj_w", "proj_axis_bounds_neg", "transform_contains_of_neg_w", "transformOut_contains_of_neg_w", "wPerspNeg_range", "wPerspNeg_neg",
     "transform_misses_point_when_w_changes_sign",
     "transform_empty", "transformOut_empty", "affineTransform_empty", "affineTransformOut_empty",
     "transform_infinite", "transformOut_infinite", "affineTransform_infinite", "affineTransformOut_infinite"]
@@ -199,19 +201,30 @@ def run(chk):
                        "ordered field: rounding of float + * / is not modelled (measured: affine transform residue <= 8 u sum|terms|)",
                        "INTEGER center() / size(): the theorems are over an ordered field / ordered group; truncation of (max+min)/2 and overflow of max+min, max-min are covered "
                        "on the small lattice only (translator validation at int/short/int64/uchar/half confirms the same template runs; Interval<short>::center() is validated at the "
-                       "five arithmetic-closed types because C++ promotes short operands to int)",
+                       "five arithmetic-closed types because C++ promotes short operands to int); 16-bit centre: center16_mem / center16_outside (inside iff max+min fits in 16 bits, "
+                       "for sums overflowing upwards); makeInfinite().size() = max - lowest overflows (undefined behaviour for int) — not claimed",
                        "type bounds: members: hypotheses tlowest < tmax and (forall x, tlowest <= x <= tmax) — a bounded linear order (the finite values of the element type); IEEE "
                        "infinities / NaN lie outside (makeInfinite() does not contain +-inf; NaN is not an element of a LinearOrder — for NaN only the harness law "
                        "box-intersects-point:nan-coordinate is claimed: all template copies report a point with a NaN coordinate outside, since /repo f7a3ec4). "
                        "transforms (ordered field, where no such bound exists): the RANGE-RELATIVE hypothesis that the eight corner images lie within [tlowest, tmax]",
-                       "projective path: 'contains the image of every point of the box' is proved under w > 0 at the eight corners (transform_contains_of_pos_w) and is FALSE when w "
-                       "changes sign on the box (transform_misses_point_when_w_changes_sign, replayed on the real code as a WITNESS line): a limitation of the property's wording, not a defect",
+                       "projective path: a corner ON the plane w = 0 has no image; the tightness theorems carry the hypothesis w != 0 at the eight corners (without it they would "
+                       "hold through Lean's x/0 = 0), the harness compares such cases for overload agreement only and records what the real code does (division by zero: +-inf "
+                       "enters the bound, 0/0 = NaN is ignored by extendBy) as a WITNESS line — outside the claim",
+                       "projective path: 'contains the image of every point of the box' is proved when w has ONE sign at the eight corners (transform_contains_of_pos_w / _of_neg_w) "
+                       "and is FALSE when w changes sign on the box (transform_misses_point_when_w_changes_sign, replayed on the real code as a WITNESS line): a limitation of "
+                       "the property's wording, not a defect",
+                       "containment and tightness are exact-arithmetic statements: with float rounding the Arvo sums can land an ulp inside the exact bound, so the ROUNDED image of a "
+                       "box point may lie outside the returned box by the measured residue; the laws transform:image-of-box-point-outside run on arithmetic-exact cases only",
+                       "element types: all theorems about the transforms are at S = T in exact arithmetic; S != T and the placement of the casts (S) m[j][i] are run (exact cases, "
+                       "bitwise agreement of the four overloads on random floats) and measured (residue, drift ceiling 5 u), not proved; IEEE infinities as box coordinates "
+                       "(Box3f(-inf, +inf) is not isInfinite(); 0 * inf = NaN in the Arvo sums) are outside the model and not generated in transform mode",
                        "extendBy is least for API-reachable boxes (non-inverted or the canonical empty box); a user-stored inverted min/max pair is treated as data "
                        "(Interval_extendByPoint_inverted_not_least)"]
     chk.rule = ("members: every (min,max) pair over {-1,0,1,2}^D incl. inverted (D=4: {0,1,2}) x every lattice point (+ half steps for float/double; one step beyond for "
                 "int/short), all pairs of boxes, all point sequences to length 3 and point/box sequences to length 2 + sampled mixed length 3 (VERIF_SEED); "
                 "non-trivial = points inside / intersecting pairs / non-empty results / points outside the box. transform: lattice and dyadic matrices (sparse, affine, "
-                "constant-w and general projective) x boxes incl. inverted, makeEmpty, makeInfinite x three old values of `result`; non-trivial = cases compared with the exact 8-corner bound")
+                "constant-w and general projective) x boxes incl. inverted, makeEmpty, makeInfinite x three old values of `result`; non-trivial = cases compared with the exact 8-corner bound. "
+                "`exhaustive` refers to the members mode (the property's small-lattice quantifier); the transforms are decided by theorem about the extracted overloads, the harness samples them")
     bins = troute.build_extractors(chk, [dict(name="sym_c13", source="sym/sym_c13.cpp", half=True), dict(name="sym_c13t", source="sym/sym_c13t.cpp")])
     okc, corr, oc = lib.cxx_build("c13_corr", ["corr/c13_corr.cpp"])
     chk.oblige("build:c13_corr", "build", okc, None if okc else oc[-1500:])
@@ -245,6 +258,32 @@ def run(chk):
         got = {d["name"]: int(d.get("paths", 0)) for d in index_t}
         chk.oblige("extract:c13t: all six whole-overload entries present", "coverage", set(want) <= set(got), sorted(set(want) - set(got)) or None)
         chk.extra["c13t_paths"] = got
+        # audit r2 N4: the path counts are part of the claim ("3,076 paths per textual copy": 3 empty + 1 infinite + 6 x 2^9; 41 = 1 + 4 x 10): a change of the
+        # guard structure that the proof skeleton happens to absorb must still be noticed
+        okp = got == want
+        chk.oblige("extract:c13t: path counts are exactly 3076 x 4 (Arvo copies) and 41 x 2 (projective arms)", "coverage", okp, None if okp else {"expected": want, "got": got})
+        if not okp:
+            chk.fail("extract:c13t:path-counts", "extract:c13t:path-counts", "the control-flow shape of a transform overload changed: path counts differ from the pinned ones",
+                     {"expected": want, "got": got}, False)
+        # audit r2 N3: translator validation on STRUCTURED boxes (k leading coordinates at the type bounds, k = 0..6; inverted boxes; uniform sign patterns;
+        # each term of the affine test failing first) so that (nearly) every leaf of the six trees is executed natively, real code vs tree bit for bit
+        nb = 60000 if chk.thorough else 20000
+        rcb, outb = lib.sh([bins["sym_c13t"], "tvbounds", str(chk.seed), str(nb), "--idx", c13_idx], timeout=1800)
+        tvb = {m.group(1): tuple(int(x) for x in m.groups()[1:]) for m in re.finditer(r"TVB (\S+) evals=(\d+) fails=(\d+) leaves_hit=(\d+) paths=(\d+)", outb)}
+        okb = rcb == 0 and "TVBDONE fails=0" in outb and set(tvb) == set(want)
+        chk.oblige("tv:c13t:structured-boxes: extracted trees = real instantiations, bitwise (double, float)", "translation-validation", okb, None if okb else outb[-600:])
+        chk.extra.setdefault("tv", {})["c13t_structured"] = {k: {"evaluations": v[0], "failures": v[1], "leaves_hit": v[2], "leaves_total": v[3]} for k, v in tvb.items()}
+        chk.count(sum(v[0] for v in tvb.values()), sum(v[0] for v in tvb.values()))
+        for l in [l for l in outb.split("\n") if l.startswith("TVFAIL")][:10]:
+            mm = re.match(r"TVFAIL (\S+) (\S+) :: (.*?) :: in=(.*)", l)
+            if mm:
+                chk.fail("tv:c13t", "tv:%s:%s" % (mm.group(2), mm.group(1)), "extracted model of %s disagrees with the real instantiation at %s on a structured box" % (mm.group(2), mm.group(1)),
+                         {"function": mm.group(2), "element_type": mm.group(1), "detail": mm.group(3), "input": mm.group(4).split()}, True)
+        if not okb and "TVFAIL" not in outb:
+            chk.fail("tv:c13t", "tv:c13t:structured", "structured translator validation did not run to completion", {"output": outb[-1500:]}, False)
+        for fn, (ev_, fl_, hit_, tot_) in sorted(tvb.items()):
+            floor = 3000 if tot_ > 1000 else 40
+            chk.oblige("tv:c13t:leaf-floor:%s: at least %d of %d leaves executed natively" % (fn, floor, tot_), "coverage", hit_ >= floor, {"leaves_hit": hit_})
 
     mode_m = ["members", "thorough" if chk.thorough else "quick", chk.seed]
     members = run_harness(corr, mode_m, timeout=3600) if okc else None
@@ -316,8 +355,22 @@ def run(chk):
     # audit W7: a law that is never evaluated cannot fail — every transform law must have been evaluated at least once
     ev = trn[7]
     chk.extra.setdefault("harness", {}).setdefault("transform", {})["evaluations_per_law"] = ev
-    for key in TRANSFORM_KEYS + ["transform:image-of-box-point-outside:projective-w>0"]:
+    for key in TRANSFORM_KEYS + ["transform:image-of-box-point-outside:projective-w>0", "transform:image-of-box-point-outside:projective-w<0"]:
         chk.oblige("law-evaluated:transform:%s" % key, "coverage", ev.get(key, 0) > 0, {"evaluations": ev.get(key, 0)})
+    # audit r2 N5: the same for the members and random modes (per-law COUNT-EVAL lines of the harness)
+    for mode, res, keys in (("members", members, MEMBER_KEYS), ("random", rnd, RANDOM_KEYS)):
+        evm = res[7]
+        chk.extra.setdefault("harness", {}).setdefault(mode, {})["evaluations_per_law"] = evm
+        for key in keys:
+            chk.oblige("law-evaluated:%s:%s" % (mode, key), "coverage", evm.get(key, 0) > 0, {"evaluations": evm.get(key, 0)})
+    # and every test of each mode must have reported (a harness edit / #if that drops a whole test)
+    tests = {"members": ["points+queries:", "majorAxis:", "special+equality:", "box-pairs:", "extendBy-sequences:", "clip:", "closestPointOnBox:"], "random": ["random:", "nan-points:"],
+             "transform": ["transform-last-column-sweep:", "transform-lattice:", "transform-random:"]}
+    for mode, res in (("members", members), ("random", rnd), ("transform", trn)):
+        names = sorted(res[1])
+        for pre in tests[mode]:
+            n = sum(1 for k in names if k.startswith(pre) and res[1][k][0] > 0)
+            chk.oblige("harness-test-ran:%s:%s" % (mode, pre.rstrip(":")), "coverage", n > 0, {"summaries": n})
     mixed = {k: v for k, v in trn[1].items() if "xMatrix44<" in k}
     chk.oblige("corr:transform:mixed-element-types S != T run (float x double, double x float)", "coverage",
                sum(1 for k in mixed if k.startswith("transform-lattice:")) == 2 and all(v[0] > 0 for v in mixed.values()), sorted(mixed) or None)
@@ -330,6 +383,13 @@ def run(chk):
             chk.sample({"witness": l}, cap=16)
     for k, v in trn[4].items():
         chk.residues[k] = v
+        # audit r2 N2: the bound of the property's wording (8 u) is 2x the clean-tree maximum (4.03 over seeds 1-5 at the thorough size); a cast moved inside a
+        # product in ALL copies shows only here, so drift above 5.0 is reported under its own key
+        okd = v["worst_error_in_units_of_u_times_sum_abs_terms"] <= 5.0
+        chk.oblige("residue-drift:%s <= 5.0 u sum|terms| (clean-tree maximum 4.03)" % k, "residue", okd, v)
+        if not okd:
+            chk.fail("residue-drift:" + k, "residue-drift:" + k, "the rounding error of the affine transform path grew beyond the calibrated clean-tree level "
+                     "(still inside the property's bound 8 u): a cast or the order of operations changed", dict(v, drift_ceiling=5.0), False)
     # H-route tie: model = real code on every arithmetic-exact case, all four overloads
     rc, out = lib.lake_build(["drv_boxt"])
     chk.oblige("build:drv_boxt", "build", rc == 0, None if rc == 0 else out[-800:])
